@@ -311,6 +311,18 @@ fn run_conc_check(context: &CheckContext, mut outcome: CheckOutcome) -> CheckOut
             return outcome;
         }
     }
+    if context.property == "C01" {
+        let run_case: std::sync::Arc<dyn Fn(&crate::volume::PressureCase) -> CaseResult + Send + Sync> = std::sync::Arc::new(|case: &crate::volume::PressureCase| crate::volume::pressure_case_result(case));
+        let (report, found) = run_campaign_with(context, "volume-pressure-monitor", "VOLUME",
+            "a cache exactly full with 500 - 8 000 keys (30 000 in the thorough tier) of weight 1 - 3 spread over 2 - 256 shards; 2 000 - 6 000 fresh keys are put unawaited, each needing an eviction, interleaved with deletes and weight-lowering upserts, while 1 - 3 reader threads poll total_weight_used() without pause: every reading must lie in [0, cache weight]; non-trivial = the readers took at least 1 000 readings",
+            if thorough { 60 } else { 12 }, std::sync::Arc::new(move || crate::volume::pressure_case_strategy(thorough)), run_case, false, context.workers.min(4));
+        outcome.reports.push(report);
+        if let Some((case, failure)) = found {
+            let replay = Replay { property: context.property.clone(), engine: "VOLUME-PRESSURE".to_string(), campaign: "volume-pressure-monitor".to_string(), seed: context.seed, case: serde_json::to_value(&case).unwrap(), policy: json!({}), failure: Some(failure.clone()), note: "timing dependent; replay re-executes the case 10 times".to_string() };
+            outcome.violations.push(Violation { replay_path: write_replay(&replay), failure });
+            return outcome;
+        }
+    }
     if context.property == "C16" {
         // volume: the sweeper and the command worker remove thousands of keys at the same time
         let started = std::time::Instant::now();
@@ -529,6 +541,7 @@ pub fn replay_file(property: &str, path: &str) -> i32 {
     let result = match replay.engine.as_str() {
         "SEQ" => replay_seq(&replay),
         "DIRECTED-F11" => Ok((0..20).find_map(|_| crate::conc::sweep_vs_reput_scenario(replay.case["delay_ms"].as_u64().unwrap_or(20)))),
+        "VOLUME-PRESSURE" => decode_case::<crate::volume::PressureCase>(&replay.case).map(|case| (0..10).find_map(|_| crate::volume::run_pressure_case(&case).1)),
         "VOLUME" => decode_case::<crate::volume::VolCase>(&replay.case).map(|case| crate::volume::run_vol_case(&case).1),
         "DIRECTED-C16" => Ok((0..10).find_map(|_| crate::conc::stats_stress_scenario(replay.case["n"].as_u64().unwrap_or(20_000), replay.case["shards"].as_u64().unwrap_or(2) as usize))),
         "DIRECTED-F12" => Ok((0..20).find_map(|_| crate::conc::phantom_weight_scenario(replay.case["delay_ms"].as_u64().unwrap_or(20)))),
